@@ -62,6 +62,9 @@ func tagOfFrame(fr frame.Frame) string {
 	switch raw.ID {
 	case 2:
 		p := append(append([]byte(nil), raw.Payload...), make([]byte, 12)...)
+		if fr.GetComponentID() == 7 { // a forwarded frame that carried a decoded message (kind 'd'); validity is judged on the in-memory transports
+			return fmt.Sprintf("f%d.%d:%d:%d", p[4], int(p[0])|int(p[1])<<8, fr.GetSequenceNumber(), fr.GetSystemID())
+		}
 		return fmt.Sprintf("m%d.%d:%d:%d", p[4], int(p[0])|int(p[1])<<8, fr.GetSequenceNumber(), fr.GetSystemID())
 	case 1:
 		p := raw.Payload
@@ -71,6 +74,44 @@ func tagOfFrame(fr frame.Frame) string {
 		return fmt.Sprintf("f%d.%d:%d:%d", p[0], int(p[1])|int(p[2])<<8, fr.GetSequenceNumber(), fr.GetSystemID())
 	}
 	return "BAD"
+}
+
+// decodedFrame: what a router holds after reading a SYSTEM_TIME frame from another link - a frame of version 1 (even item numbers)
+// or 2 with a DECODED message and the checksum it arrived with. TimeBootMs is zero: the version-2 payload is shorter than the
+// version-1 payload of the same message.
+func decodedFrame(g, i int) frame.Frame {
+	ver := frame.V2
+	if i%2 == 0 {
+		ver = frame.V1
+	}
+	var buf strings.Builder
+	w := &frame.Writer{ByteWriter: &sbWriter{&buf}, DialectRW: getDialectRW("common"), OutVersion: ver, OutSystemID: byte(g + 1), OutComponentID: 7}
+	if err := w.Initialize(); err != nil {
+		panic(err)
+	}
+	if err := w.WriteMessage(&common.MessageSystemTime{TimeUnixUsec: uint64(i) | uint64(g)<<32}); err != nil {
+		panic(err)
+	}
+	r := &frame.Reader{ByteReader: strings.NewReader(buf.String()), DialectRW: getDialectRW("common")}
+	r.Initialize() //nolint
+	fr, err := r.Read()
+	if err != nil {
+		panic(err)
+	}
+	// the item number as sequence number, like the other forwarded frames; the checksum covers it
+	switch f := fr.(type) {
+	case *frame.V1Frame:
+		f.SequenceNumber = byte(i)
+		raw := &frame.V1Frame{SequenceNumber: f.SequenceNumber, SystemID: f.SystemID, ComponentID: f.ComponentID,
+			Message: getDialectRW("common").GetMessage(2).Write(f.Message, false)}
+		f.Checksum = raw.GenerateChecksum(getDialectRW("common").GetMessage(2).CRCExtra())
+	case *frame.V2Frame:
+		f.SequenceNumber = byte(i)
+		raw := &frame.V2Frame{SequenceNumber: f.SequenceNumber, SystemID: f.SystemID, ComponentID: f.ComponentID,
+			Message: getDialectRW("common").GetMessage(2).Write(f.Message, true)}
+		f.Checksum = raw.GenerateChecksum(getDialectRW("common").GetMessage(2).CRCExtra())
+	}
+	return fr
 }
 
 // execFanOp performs item i of goroutine g.
@@ -90,8 +131,11 @@ func execFanOp(n *gomavlib.Node, g, i int, o fanOp, target *gomavlib.Channel) {
 		}
 		return
 	}
-	fr := &frame.V2Frame{SequenceNumber: byte(i), SystemID: byte(g + 1), ComponentID: 7,
+	var fr frame.Frame = &frame.V2Frame{SequenceNumber: byte(i), SystemID: byte(g + 1), ComponentID: 7,
 		Message: &message.MessageRaw{ID: 1, Payload: []byte{byte(g), byte(i), byte(i >> 8)}}}
+	if o.kind == 'd' {
+		fr = decodedFrame(g, i)
+	}
 	switch o.target {
 	case 'a':
 		n.WriteFrameAll(fr) //nolint
